@@ -9,7 +9,8 @@ import BM.Proofs.BytesC
 namespace BM
 open Html Spec
 
-theorem prov_segOKC {p : Policy} (hp : PlainC p) {t k : Token} (hwf : TokWF t) (h : Prov p t k) : SegOKC k := by
+theorem prov_segOKOn {p : Policy} {t k : Token} (hraw : isRawTagName t.data = true → allowsElement p t.data = false)
+    (hwf : TokWF t) (h : Prov p t k) : SegOKC k := by
   rcases h with ⟨rfl, _⟩ | ⟨rfl, htt⟩ | ⟨aps, attrs, hr, hc, rfl, htt⟩
   · exact .inl (by simp [SegOK])
   · rcases htt with h | h | ⟨h, _⟩
@@ -20,7 +21,7 @@ theorem prov_segOKC {p : Policy} (hp : PlainC p) {t k : Token} (hwf : TokWF t) (
     have hnr : isRawTagName t.data = false := by
       cases h : isRawTagName t.data with
       | false => rfl
-      | true => rw [hp.noRaw _ h] at hall; cases hall
+      | true => rw [hraw h] at hall; cases hall
     refine .inl ?_
     rcases htt with h | h
     · have hw : NameOK' t.data ∧ ∀ a ∈ t.attrs, AttrOK a := by
@@ -32,9 +33,12 @@ theorem prov_segOKC {p : Policy} (hp : PlainC p) {t k : Token} (hwf : TokWF t) (
       unfold SegOK; simp only [h]
       exact ⟨hw.1, hnr, allOK_cleanAttrs p t aps attrs hw.2 hc⟩
 
+theorem prov_segOKC {p : Policy} (hp : PlainC p) {t k : Token} (hwf : TokWF t) (h : Prov p t k) : SegOKC k :=
+  prov_segOKOn (hp.noRaw t.data) hwf h
+
 /-- **the bridge, comments allowed**: the bytes are the serialisation of tokens that come from the
     input's tokens, and the tokenizer reads them back, comment data re-read -/
-theorem bytes_provC (p : Policy) (hp : PlainC p.ensureInit) (input : Bytes) :
+theorem bytes_provOn (p : Policy) (input : Bytes) (hp : PlainOn p.ensureInit (tokenize input)) :
     ∃ toks : List Token, p.sanitizeCore input = renderAll toks ∧
       tokenize (p.sanitizeCore input) = coalesce [] (toks.map reread) ∧
       ∀ k ∈ toks, ∃ t ∈ tokenize input, Prov p.ensureInit t k := by
@@ -42,12 +46,18 @@ theorem bytes_provC (p : Policy) (hp : PlainC p.ensureInit) (input : Bytes) :
   have hseg : ∀ k ∈ toks, SegOKC k := by
     intro k hk
     obtain ⟨t, ht, hpr⟩ := hprov k hk
-    exact prov_segOKC hp (tokenize_wf input t ht) hpr
+    exact prov_segOKOn (hp.noRaw t ht) (tokenize_wf input t ht) hpr
   have hb : p.sanitizeCore input = renderAll toks := by
     unfold Policy.sanitizeCore Policy.sanitizeTokens
     unfold TokBytes at hbytes
     rw [hbytes, flatten_map_render]
   exact ⟨toks, hb, by rw [hb]; exact tokenize_renderAllC toks hseg, hprov⟩
+
+theorem bytes_provC (p : Policy) (hp : PlainC p.ensureInit) (input : Bytes) :
+    ∃ toks : List Token, p.sanitizeCore input = renderAll toks ∧
+      tokenize (p.sanitizeCore input) = coalesce [] (toks.map reread) ∧
+      ∀ k ∈ toks, ∃ t ∈ tokenize input, Prov p.ensureInit t k :=
+  bytes_provOn p input (hp.on _)
 
 /-- a non-comment token of a re-read list is a token of the written list -/
 theorem mem_map_reread {toks : List Token} {k : Token} (hk : k ∈ toks.map reread) (hnc : k.tt ≠ .comment) : k ∈ toks := by
@@ -55,12 +65,12 @@ theorem mem_map_reread {toks : List Token} {k : Token} (hk : k ∈ toks.map rere
   have : k'.tt ≠ .comment := by rw [← reread_tt]; exact hnc
   rw [reread_of_ne k' this]; exact hk'
 
-theorem reread_open_tagC (p : Policy) (hp : PlainC p.ensureInit) (input : Bytes) :
+theorem reread_open_tagOn (p : Policy) (input : Bytes) (hp : PlainOn p.ensureInit (tokenize input)) :
     ∀ k ∈ tokenize (p.sanitizeCore input), (k.tt = .start ∨ k.tt = .selfClosing) → k.attrs ≠ [] →
       ∃ t ∈ tokenize input, ∃ aps, t.data = k.data ∧ p.ensureInit.attrRulesFor k.data = some aps ∧
         p.ensureInit.sanitizeAttrs k.data t.attrs aps = some k.attrs := by
   intro k hk htt hne
-  obtain ⟨toks, _, hrt, hprov⟩ := bytes_provC p hp input
+  obtain ⟨toks, _, hrt, hprov⟩ := bytes_provOn p input hp
   rw [hrt] at hk
   rcases mem_coalesce (toks.map reread) [] k hk with ⟨h, _⟩ | ⟨hmem, _⟩
   · rcases htt with h' | h' <;> rw [h'] at h <;> cases h
@@ -77,6 +87,12 @@ theorem reread_open_tagC (p : Policy) (hp : PlainC p.ensureInit) (input : Bytes)
         simp at hc; subst hc
         exact absurd (List.isEmpty_iff.mp he) hne
       · exact hc
+
+theorem reread_open_tagC (p : Policy) (hp : PlainC p.ensureInit) (input : Bytes) :
+    ∀ k ∈ tokenize (p.sanitizeCore input), (k.tt = .start ∨ k.tt = .selfClosing) → k.attrs ≠ [] →
+      ∃ t ∈ tokenize input, ∃ aps, t.data = k.data ∧ p.ensureInit.attrRulesFor k.data = some aps ∧
+        p.ensureInit.sanitizeAttrs k.data t.attrs aps = some k.attrs :=
+  reread_open_tagOn p input (hp.on _)
 
 /-- re-reading comments changes neither the text … -/
 theorem textOf_map_reread (ts : List Token) : textOf (ts.map reread) = textOf ts := by
